@@ -437,6 +437,24 @@ def matchLoop (cmp : Str → Str → Except Err Int) (vname : Str) :
 def versionMatch (vname expr : Str) : Except Err Bool :=
   matchLoop (stdCompare true) vname (tokenize expr) none none
 
+/-! ## `Eups.isLegalRelativeVersion` -/
+
+/-- `_bad_relop_re.match(s)`, `^\s*=\s+\S+`: blanks, a single `=`, at least one blank, something that is not a blank. -/
+def badRelop (s : Str) : Bool :=
+  match s.dropWhile Str.isSpace with
+  | 61 :: rest => !(rest.takeWhile Str.isSpace).isEmpty && !(rest.dropWhile Str.isSpace).isEmpty
+  | _ => false
+
+/-- how `isLegalRelativeVersion(versionName)` ends: `True`, `False`, or
+`EupsException("Bad expr syntax: …; did you mean '=='?")` -/
+inductive Legal | relational | plain | badSyntax
+  deriving DecidableEq, Repr
+
+/-- `Eups.isLegalRelativeVersion` on a string (`None` gives `False`, as the empty string does):
+an expression is one that contains a relational operator *anywhere* (`_relop_re.search`). -/
+def isLegalRelativeVersion (s : Str) : Legal :=
+  if hasRelop s then .relational else if badRelop s then .badSyntax else .plain
+
 /-! ## latest -/
 
 /-- the names with their split forms (the sort compares every name: a malformed one raises) -/
